@@ -42,9 +42,12 @@ func normAddrBytes(t Target) []byte {
 }
 
 // streamOracle checks one direction: `have` bytes already delivered (request payload), then the ops.
-func streamOracle(dir string, want []byte, have int, ops []OpObs, sinkStarted bool) (string, string) {
+// touts: the read deadlines scripted for this direction's transport (nil: none); mid: the deadline
+// falls strictly inside a chunk (the conn may, and after the repair must, stay failed afterwards).
+func streamOracle(dir string, want []byte, have int, ops []OpObs, sinkStarted bool, touts []int, mid bool) (string, string) {
 	pos := have
 	sawRead := false
+	nTimeouts := 0
 	for i, o := range ops {
 		k := o.Op.Kind
 		if strings.HasPrefix(o.Err, "panic:") {
@@ -82,6 +85,13 @@ func streamOracle(dir string, want []byte, have int, ops []OpObs, sinkStarted bo
 					return "F1:read-then-" + k + "-leftover", fmt.Sprintf("%s op %d: %s after Read returned cleanly, the %d bytes buffered by the earlier Read were never delivered", dir, i, k, len(want)-pos)
 				}
 				return "early-eof:" + dir + ":" + k, fmt.Sprintf("%s op %d (%s): end of stream reported after %d of %d bytes", dir, i, k, pos, len(want))
+			}
+		case o.Err == "timeout" && len(touts) > 0:
+			// the transport reported a read deadline: the caller simply calls again
+			nTimeouts++
+			if !mid && nTimeouts > len(touts) {
+				return "transient-timeout:" + dir + ":conn-dead-after-boundary-deadline", fmt.Sprintf("%s op %d (%s): the transport reported %d read deadlines, all at chunk boundaries (offsets %v, nothing of the next chunk consumed), but this is timeout error number %d: the conn stays failed although cipher and stream are in step; %d of %d bytes delivered",
+					dir, i, k, len(touts), touts, nTimeouts, pos, len(want))
 			}
 		default:
 			return "error:" + dir + ":" + k + ":" + o.Err, fmt.Sprintf("%s op %d (%s): unexpected error %s at offset %d of %d", dir, i, k, o.Err, pos, len(want))
@@ -154,7 +164,7 @@ func oracle(c Case, o Obs) (string, string) {
 			return "request-mutated:user:" + seen.When, fmt.Sprintf("username %q right after HandleStream, %q %s", o.ReqUser, seen.User, seen.When)
 		}
 	}
-	if k, d := streamOracle("c2s", c.C2SStream(), len(o.ReqPayload), o.SOps, true); k != "" {
+	if k, d := streamOracle("c2s", c.C2SStream(), len(o.ReqPayload), o.SOps, true, o.C2STouts, c.C2STout.Mode == "mid"); k != "" {
 		return k, d
 	}
 	if o.SWriteErr != "" {
@@ -173,7 +183,7 @@ func oracle(c Case, o Obs) (string, string) {
 		}
 		return "segmented-response-not-refused", fmt.Sprintf("first segment %d < %d: %s", o.CFirstSeg, rfixed, o.COps[0].Err)
 	}
-	return streamOracle("s2c", c.S2CStream(), 0, o.COps, c.SinkStarted)
+	return streamOracle("s2c", c.S2CStream(), 0, o.COps, c.SinkStarted, o.S2CTouts, c.S2CTout.Mode == "mid")
 }
 
 // ---------- generator ----------
@@ -349,6 +359,34 @@ func genCase(r *common.Rng) Case {
 	c.CReads = genReads(r, total2)
 	c.SinkStarted = r.Bool()
 	c.WriteFirst = r.Bool()
+	// read deadlines of the transports: the caller calls again after each
+	again := func(ops []ROp, n int) []ROp {
+		for i := 0; i < n+2; i++ {
+			switch r.Intn(4) {
+			case 0:
+				ops = append(ops, ROp{Kind: "writeto"})
+			case 1:
+				ops = append(ops, ROp{Kind: "tunnel", ViaReadFrom: r.Bool()})
+			default:
+				ops = append(ops, ROp{Kind: "read", N: common.Pick(r, []int{1, 17, 100, 4096, 65551, 70000})})
+			}
+		}
+		return append(ops, ROp{Kind: common.Pick(r, []string{"writeto", "tunnel", "writeto"})}, ROp{Kind: "read", N: 70000})
+	}
+	gt := func() Tout {
+		if r.Chance(1, 5) {
+			return Tout{Mode: "mid", Seed: r.U64()}
+		}
+		return Tout{Mode: "boundary", Seed: r.U64(), Count: r.Range(1, 6)}
+	}
+	if r.Chance(1, 4) {
+		c.C2STout = gt()
+		c.SReads = again(c.SReads, c.C2STout.Count)
+	}
+	if r.Chance(1, 4) {
+		c.S2CTout = gt()
+		c.CReads = again(c.CReads, c.S2CTout.Count)
+	}
 	return c
 }
 
@@ -357,7 +395,14 @@ func probes() []Case {
 	cfg := Cfg{KeyLen: 32, KeySeed: 7}
 	t := Target{Kind: "4", IP: "1.2.3.4", Port: 80}
 	two := []WOp{{Kind: "write", Data: Data{Seed: 1, Len: 5000}}, {Kind: "write", Data: Data{Seed: 2, Len: 5000}}}
+	rd := []ROp{{Kind: "read", N: 100}, {Kind: "read", N: 70000}, {Kind: "writeto"}, {Kind: "tunnel"}, {Kind: "read", N: 1}, {Kind: "writeto"}, {Kind: "writeto"}, {Kind: "tunnel"}, {Kind: "writeto"}, {Kind: "read", N: 70000}}
+	three := append(append([]WOp{}, two...), WOp{Kind: "write", Data: Data{Seed: 3, Len: 70000}})
 	return []Case{
+		// transient-timeout-at-chunk-boundary, both directions, and the negative (deadline inside a chunk)
+		{Cfg: cfg, Target: t, CWrites: three, C2S: Seg{Mode: "atomic"}, SReads: rd, SWrites: three, S2C: Seg{Mode: "atomic"}, CReads: rd, SinkStarted: true,
+			C2STout: Tout{Mode: "boundary", Seed: 1, Count: 5}, S2CTout: Tout{Mode: "boundary", Seed: 2, Count: 5}},
+		{Cfg: cfg, Target: t, CWrites: three, C2S: Seg{Mode: "random", Seed: 5}, SReads: rd, SWrites: three, S2C: Seg{Mode: "cuts"}, CReads: rd,
+			C2STout: Tout{Mode: "mid", Seed: 3}, S2CTout: Tout{Mode: "mid", Seed: 4}},
 		{Cfg: cfg, Target: t, CWrites: two, C2S: Seg{Mode: "atomic"}, SReads: []ROp{{Kind: "read", N: 100}, {Kind: "writeto"}}, S2C: Seg{Mode: "atomic"}},
 		{Cfg: cfg, Target: t, CWrites: two, C2S: Seg{Mode: "atomic"}, SReads: []ROp{{Kind: "read", N: 100}, {Kind: "tunnel"}}, S2C: Seg{Mode: "atomic"}},
 		{Cfg: cfg, Target: t, C2S: Seg{Mode: "atomic"}, SWrites: two, S2C: Seg{Mode: "atomic"}, CReads: []ROp{{Kind: "read", N: 100}, {Kind: "tunnel"}}, SinkStarted: false},
@@ -444,6 +489,9 @@ func evalCases(cases []Case, o *common.Options, rep *common.Report, probe bool) 
 		rep.Count("c2s-seg=" + c.C2S.Mode)
 		rep.Count("s2c-seg=" + c.S2C.Mode)
 		rep.Count("target=" + c.Target.Kind)
+		if c.C2STout.Mode != "" || c.S2CTout.Mode != "" {
+			rep.Count("read-deadlines=c2s:" + c.C2STout.Mode + "/s2c:" + c.S2CTout.Mode)
+		}
 		for _, ops := range [][]OpObs{obs.SOps, obs.COps} {
 			seenRead := false
 			for _, op := range ops {
